@@ -121,6 +121,7 @@ class Run(object):
         self.opi = 0
         self.seen_dead = set()
         self.gv = None
+        self.salt = 0
         for kind in case['ffis']:
             self.ffis.append([kind, self.make_ffi(kind)])
 
@@ -207,11 +208,20 @@ class Run(object):
             item = self.build_direct(entry, d[1])
             return be.new_array_type(be.new_pointer_type(item), d[2])
         if k == 'func':
-            args = tuple(self.build_direct(entry, a) for a in d[2])
-            return be.new_function_type(args, self.build_direct(entry, d[1]), d[3])
+            args = []
+            for j, a in enumerate(d[2]):
+                if a[0] == 'ptr' and a[1][0] not in ('void', 'func') and (self.salt + j) % 3 == 0:
+                    # the same C parameter type spelled as an array: 'T x[n]' decays to 'T *'
+                    item = self.build_direct(entry, a[1])
+                    args.append(be.new_array_type(be.new_pointer_type(item), 1 + (self.salt + j) % 5))
+                    self.out.probe('function_argument_given_as_array_type')
+                else:
+                    args.append(self.build_direct(entry, a))
+            return be.new_function_type(tuple(args), self.build_direct(entry, d[1]), d[3])
         raise HarnessError('bad desc')
 
     def build(self, how, k, d):
+        self.salt = k
         need = needs_cdef(d)
         entry = self.pick_ffi(k, need)
         if entry is None:
